@@ -422,6 +422,9 @@ func (eng *Engine) callEffects(c *ssa.CallCommon, s *sorts, res *Effects, walk f
 			}
 			return
 		}
+		if !closedWorld(c.Value.Type()) {
+			return
+		}
 		impls := eng.Implementers(iface, typeName(c.Value.Type()))
 		for _, t := range impls {
 			if fn := eng.MethodOf(t, c.Method.Name(), c.Method.Pkg()); fn != nil {
@@ -460,12 +463,26 @@ func (eng *Engine) callEffects(c *ssa.CallCommon, s *sorts, res *Effects, walk f
 	res.All = true
 }
 
+// ifaceMethodKey: contract key of an interface method, e.g. net/http.(ResponseWriter).Write
+func ifaceMethodKey(t types.Type, method string) string {
+	tn := typeName(t)
+	if i := strings.LastIndex(tn, "."); i >= 0 {
+		return tn[:i] + ".(" + tn[i+1:] + ")." + method
+	}
+	return "builtin.(" + tn + ")." + method
+}
+
 func (eng *Engine) ifaceContract(c *ssa.CallCommon) *FuncContract {
-	key := "(" + typeName(c.Value.Type()) + ")." + c.Method.Name()
-	if fc, ok := eng.DB.Funcs[key]; ok {
+	if fc, ok := eng.DB.Funcs[ifaceMethodKey(c.Value.Type(), c.Method.Name())]; ok {
 		return fc
 	}
 	return nil
+}
+
+// closedWorld: dispatch by enumeration of implementers is only used for interfaces declared in the module
+func closedWorld(t types.Type) bool {
+	n, ok := t.(*types.Named)
+	return ok && n.Obj().Pkg() != nil && strings.HasPrefix(n.Obj().Pkg().Path(), ModPath)
 }
 
 // logging and similar library calls that have no effect on program state
